@@ -342,7 +342,9 @@ def run_history(case, ctx):
                 continue
             raise Violation("%s/write-raised/%s" % (kind, res.type), "write raised %r" % (res,))
         if m.kind == "plain" and m.p.get("poison"):
-            raise RuntimeError("harness: poison record was serialised")
+            # (an implementation that can serialise it after all: the history has no refused write, nothing to judge)
+            ctx.cls("abandoned:unserialisable-record-accepted")
+            return
     if failed:
         specs = [x for k, x in enumerate(specs) if k not in failed]
         records = [x for k, x in enumerate(records) if k not in failed]
